@@ -35,12 +35,12 @@ def fmtToBytes (len : Nat) (seg : Bool) : Except Err Bytes :=
 def fmtFromBytes (bs : Bytes) : Except Err (Nat × Bool) :=
   match bs with
   | [b0, b1] =>
-    if b0.toNat &&& 0xF0 != 0xA0 then .error .decode
+    if b0.toNat &&& 0xF0 != 0xA0 then .error .parse     -- HdlcParsingError
     else
       let seg := b0.toNat &&& 0x08 != 0
       let len := beNat [b0, b1] &&& 0x07FF
       .ok (len, seg)
-  | _ => .error .decode
+  | _ => .error .parse
 
 /-- `LongInvokeIdAndPriority.to_bytes`: status byte then 3-byte id (`to_bytes(3)` raises above 2^24-1). -/
 def longInvokeStatus (prio conf brk selfd : Bool) : Nat :=
